@@ -189,6 +189,9 @@ def gen_input(rng, kind, size):
             k = rng.choice(["zeros", "rle", "random", "period", "text", "lowent"])
             out += gen_input(rng, k, rng.choice([1, 7, 100, 1000, 8192, 20000]))
         return bytes(out[:size])
+    if kind == "rawlits":    # exactly `size` bytes without any repeat, then a copy of the first 64: one sequence, `size` literals
+        body = gen_input(rng, "debruijn", size + 8)[8:]     # skip the leading run of the de Bruijn sequence
+        return body * 3
     if kind == "debruijn":   # every 4-gram unique over a 16-letter alphabet: no match of length >= 4 exists, but 4 bits/byte for Huffman
         k, n = 16, 4
         a = [0] * (k * n)
